@@ -195,6 +195,7 @@ int main(int argc, char **argv)
 {
     int i, e, st, ck; const char *replay = NULL, *prop = NULL; double t0 = now(); char gaps[1500] = ""; int ngaps = 0;
     setvbuf(stdout, NULL, _IOFBF, 1 << 16);
+    shim_watchdog_start();
     for (i = 1; i < argc; i++) {
         if (!strcmp(argv[i], "--prop") && i + 1 < argc) prop = argv[++i];
         else if (!strcmp(argv[i], "--config") && i + 1 < argc) ++i;
